@@ -16,6 +16,8 @@ pub fn dispatch(cmd: &str, c: &Value) -> Value {
         "open_prefix" => open_prefix(c),
         "archive_fault" => archive_fault(c),
         "fasta_parse" => fasta_parse(c),
+        "queue_seq" => queue_seq(c),
+        "queue_conc" => queue_conc(c),
         "catalogue" => catalogue(c),
         "varint" => varint(c),
         "collvarint" => collvarint(c),
@@ -475,4 +477,100 @@ pub fn catalogue(c: &Value) -> Value {
         out.push(json!({"name": names[i].as_bytes(), "contigs": cts}));
     }
     json!({ "ok": ok, "why": why, "samples": out })
+}
+
+// ---------------------------------------------------------------- C06 / C05 bounded priority queue
+pub fn queue_seq(c: &Value) -> Value {
+    use ragc_core::memory_bounded_queue::MemoryBoundedQueue;
+    let cap = c["cap"].as_u64().unwrap() as usize;
+    let q: MemoryBoundedQueue<u64> = MemoryBoundedQueue::new(cap);
+    let mut model: Vec<(u64, usize)> = vec![];
+    let mut closed = false; let mut ok = true; let mut why = String::new(); let mut nid = 0u64;
+    for op in c["ops"].as_array().unwrap() {
+        let o = op.as_array().unwrap();
+        let name = o[0].as_str().unwrap();
+        let total: usize = model.iter().map(|x| x.1).sum();
+        match name {
+            "push" | "try_push" => {
+                let item = o[1].as_u64().unwrap() * 8 + nid; nid += 1; let size = o[2].as_u64().unwrap() as usize;
+                let fits = total + size <= cap;
+                if name == "push" && !fits && !closed { return json!({"ok": true, "skipped": "would block"}); }
+                let accepted = if name == "push" { q.push(item, size).is_ok() } else { q.try_push(item, size).is_ok() };
+                if closed { if accepted { ok = false; why = "accepted after close".into(); } }
+                else if fits { if !accepted { ok = false; why = "refused fitting item".into(); } else { model.push((item, size)); } }
+                else if accepted { ok = false; why = "accepted beyond capacity".into(); }
+            }
+            "pull" | "try_pull" => {
+                if name == "pull" && model.is_empty() && !closed { return json!({"ok": true, "skipped": "would block"}); }
+                let r = if name == "pull" { q.pull() } else { q.try_pull() };
+                match r {
+                    None => if !model.is_empty() { ok = false; why = "None with items queued".into(); },
+                    Some(x) => match model.iter().position(|m| m.0 == x) {
+                        None => { ok = false; why = "phantom item".into(); }
+                        Some(i) => { if model.iter().any(|m| m.0 > x) { ok = false; why = "priority order".into(); } model.remove(i); }
+                    },
+                }
+            }
+            "close" => { q.close(); closed = true; }
+            _ => { if q.len() != model.len() || q.current_size() != total || q.current_size() > cap || q.is_closed() != closed { ok = false; why = "accounting".into(); } }
+        }
+    }
+    json!({ "ok": ok, "why": why })
+}
+
+/// Stress replay of a concurrent configuration on the real queue with real threads: producers push their items (sizes given),
+/// consumers pull until None, main closes after the producers; a watchdog reports a hang. Many trials with random delays.
+pub fn queue_conc(c: &Value) -> Value {
+    use ragc_core::memory_bounded_queue::MemoryBoundedQueue;
+    use std::sync::{Arc, Mutex, atomic::{AtomicUsize, Ordering}};
+    use std::time::{Duration, Instant};
+    let cap = c["cap"].as_u64().unwrap() as usize;
+    let sizes: Vec<Vec<usize>> = c["sizes"].as_array().unwrap().iter().map(|p| p.as_array().unwrap().iter().map(|x| x.as_u64().unwrap() as usize).collect()).collect();
+    let ncons = c["consumers"].as_u64().unwrap() as usize;
+    let trials = c["trials"].as_u64().unwrap_or(150);
+    let fits = sizes.iter().flatten().all(|&s| s <= cap);
+    let mut seed = 0x9E3779B97F4A7C15u64;
+    let mut rnd = move || { seed ^= seed << 13; seed ^= seed >> 7; seed ^= seed << 17; seed };
+    for trial in 0..trials {
+        let q: MemoryBoundedQueue<u64> = MemoryBoundedQueue::new(cap);
+        let pulled = Arc::new(Mutex::new(Vec::<u64>::new()));
+        let done = Arc::new(AtomicUsize::new(0));
+        let bad = Arc::new(Mutex::new(String::new()));
+        let mut hs = vec![]; let mut ph = vec![];
+        for ci in 0..ncons {
+            let (q, pulled, done) = (q.clone(), pulled.clone(), done.clone()); let d = rnd() % 300;
+            hs.push(std::thread::spawn(move || { std::thread::sleep(Duration::from_micros(d * (ci as u64 + 1) % 500)); while let Some(x) = q.pull() { pulled.lock().unwrap().push(x); if d % 3 == 0 { std::thread::yield_now(); } } done.fetch_add(1, Ordering::SeqCst); }));
+        }
+        let npush = Arc::new(AtomicUsize::new(0));
+        for (pi, items) in sizes.iter().enumerate() {
+            let (q, done, items, bad, npush) = (q.clone(), done.clone(), items.clone(), bad.clone(), npush.clone()); let d = rnd() % 300;
+            ph.push(std::thread::spawn(move || { std::thread::sleep(Duration::from_micros(d)); for (k, &s) in items.iter().enumerate() {
+                match q.push((3 - k as u64) * 8 + pi as u64, s) { Ok(()) => { npush.fetch_add(1, Ordering::SeqCst); if fits && q.current_size() > cap { *bad.lock().unwrap() = "capacity exceeded".into(); } } Err(_) => { if !q.is_closed() { *bad.lock().unwrap() = "push refused before close".into(); } } } }
+                done.fetch_add(1, Ordering::SeqCst); }));
+        }
+        let t0 = Instant::now();
+        let early = c["early_close"].as_bool().unwrap_or(false);
+        if early {
+            // close at an arbitrary moment: producers may be blocked in push and must be released with Err(Closed)
+            std::thread::sleep(Duration::from_micros(rnd() % 3000));
+            q.close();
+            loop { if ph.iter().all(|h| h.is_finished()) { break; } if t0.elapsed() > Duration::from_millis(1500) { return json!({"ok": false, "why": "hang: a producer is still blocked in push after close", "trial": trial}); } std::thread::sleep(Duration::from_micros(200)); }
+        } else {
+            loop { if ph.iter().all(|h| h.is_finished()) { break; } if t0.elapsed() > Duration::from_millis(1500) { return json!({"ok": false, "why": "hang: a producer is still blocked in push", "trial": trial}); } std::thread::sleep(Duration::from_micros(200)); }
+            q.close();
+        }
+        loop { if hs.iter().all(|h| h.is_finished()) { break; } if t0.elapsed() > Duration::from_millis(3000) { return json!({"ok": false, "why": "hang: a consumer is still blocked after close", "trial": trial}); } std::thread::sleep(Duration::from_micros(200)); }
+        let b = bad.lock().unwrap().clone();
+        if !b.is_empty() { return json!({"ok": false, "why": b, "trial": trial}); }
+        let mut got = pulled.lock().unwrap().clone(); got.sort();
+        let mut dedup = got.clone(); dedup.dedup();
+        if ncons == 0 {
+            // nothing drains the queue: after close every accepted item must still be there, and none may have been accepted after close
+            if q.len() != npush.load(Ordering::SeqCst) { return json!({"ok": false, "why": "queue length differs from accepted pushes", "trial": trial}); }
+            if fits && q.current_size() > cap { return json!({"ok": false, "why": "item queued after close beyond the capacity", "trial": trial}); }
+            continue;
+        }
+        if got.len() != npush.load(Ordering::SeqCst) || dedup.len() != got.len() { return json!({"ok": false, "why": format!("pushed {} pulled {:?}", npush.load(Ordering::SeqCst), got), "trial": trial}); }
+    }
+    json!({ "ok": true, "trials": trials })
 }
